@@ -166,6 +166,30 @@ fn slow_ops(acc: &mut Acc, a: u64, e: u64, k: usize) {
         for _ in 0..k6 { x = rmul(x, x); }
         x
     }, a, k6 as u64);
+    // exp_biguint with multi-limb exponents, incl. limbs that are exactly zero or all-ones:
+    // x^(hi*2^128 + mid*2^64 + lo) against a square-and-multiply chain in the u128 model
+    {
+        let limb = |sel: usize, v: u64| -> u64 {
+            match sel % 4 {
+                0 => 0,
+                1 => u64::MAX,
+                2 => 1,
+                _ => v,
+            }
+        };
+        let (lo, mid, hi) = (limb(k, e), limb(k / 4, e.rotate_left(17)), limb(k / 16, e.rotate_left(41) | 1));
+        let exponent = num::BigUint::from(lo) + (num::BigUint::from(mid) << 64) + (num::BigUint::from(hi) << 128);
+        let p64 = |mut x: u64| {
+            for _ in 0..64 {
+                x = rmul(x, x);
+            }
+            x
+        };
+        let x64 = p64(canon(a));
+        let x128 = p64(x64);
+        let want = rmul(rmul(rpow(a, lo), rpow(x64, mid)), rpow(x128, hi));
+        chk!(acc, "exp_biguint", fa.exp_biguint(&exponent), want, a, lo ^ mid ^ hi);
+    }
     let kk = k % 200;
     chk!(acc, "inverse_2exp", F::inverse_2exp(kk), rinv(rpow(2, kk as u64)).unwrap(), kk as u64);
     if canon(a) != 0 {
